@@ -454,7 +454,7 @@ class Unroller(ast.NodeTransformer):
     # ---- table resolution
     def table(self, e, depth=0):
         """('rows', [row exprs]) | ('pairs', Dict) | None"""
-        if depth > 3:
+        if depth > 6:
             return None
         rows = _literal_rows(e)
         if rows is not None:
@@ -536,6 +536,26 @@ class Unroller(ast.NodeTransformer):
                                     return None
                                 t = ("rows", [_Subst({hp: target}).visit(copy.deepcopy(r)) for r in t[1]])
                         return t
+            return None
+        if isinstance(e, ast.Call) and isinstance(e.func, ast.Name) and e.func.id in ("tuple", "list") and len(e.args) == 1 and not e.keywords:
+            t = self.table(e.args[0], depth + 1)
+            return t if t and t[0] == "rows" else None
+        if isinstance(e, ast.Subscript) and isinstance(e.slice, ast.Slice):
+            # a slice of a constant table with constant bounds
+            t = self.table(e.value, depth + 1)
+
+            def const(x):
+                if x is None:
+                    return True, None
+                if isinstance(x, ast.Constant) and isinstance(x.value, int) and not isinstance(x.value, bool):
+                    return True, x.value
+                if isinstance(x, ast.UnaryOp) and isinstance(x.op, ast.USub) and isinstance(x.operand, ast.Constant) and isinstance(x.operand.value, int):
+                    return True, -x.operand.value
+                return False, None
+
+            b = [const(e.slice.lower), const(e.slice.upper), const(e.slice.step)]
+            if t and t[0] == "rows" and all(ok for ok, _v in b):
+                return ("rows", list(t[1])[slice(*[v for _ok, v in b])])
             return None
         if isinstance(e, ast.Call) and isinstance(e.func, ast.Name) and e.func.id == "map" and len(e.args) == 2 and not e.keywords:
             # map(f, TABLE): the rows with f applied (f a name, a lambda, or partial(g, fixed..))
@@ -756,6 +776,43 @@ class Unroller(ast.NodeTransformer):
             return out
 
         return conv(g.body)
+
+    def visit_Expr(self, node):
+        self.generic_visit(node)
+        c = node.value
+        # self._helper(TABLE ..) as a statement: a private procedure of the class that is handed a constant table runs its
+        # statements on that table (parameters replaced by the arguments, its locals renamed apart)
+        if isinstance(c, ast.Call) and isinstance(c.func, ast.Attribute) and isinstance(c.func.value, ast.Name) and c.func.value.id == "self" and self.cls and c.func.attr.startswith("_") and not c.func.attr.startswith("__") and not c.keywords and c.args and not any(isinstance(a, ast.Starred) for a in c.args):
+            h = self.classes.get(self.cls[-1], ({}, {}))[1].get(c.func.attr)
+            if h is not None and not h.decorator_list and self.fn_nodes and h is not self.fn_nodes[-1]:
+                a = h.args
+                body = [x for x in h.body if not (isinstance(x, ast.Expr) and isinstance(x.value, ast.Constant) and isinstance(x.value.value, str))]
+                plain = not (a.vararg or a.kwarg or a.kwonlyargs or a.posonlyargs or a.defaults) and len(a.args) == len(c.args) + 1
+                tables = [self.table(x) for x in c.args]
+                if plain and any(t is not None for t in tables) and all(t is not None or _simple(x) for t, x in zip(tables, c.args)) and body and not any(isinstance(n, (ast.Return, ast.Yield, ast.YieldFrom, ast.Lambda, ast.FunctionDef, ast.Global, ast.Nonlocal)) for st in body for n in ast.walk(st)) and not any(isinstance(n, ast.Call) and isinstance(n.func, ast.Attribute) and n.func.attr == h.name for st in body for n in ast.walk(st)):
+                    params = [p_.arg for p_ in a.args]
+                    stored = _stores(body)
+                    if not (stored & set(params)):
+                        self._proc_count = getattr(self, "_proc_count", 0) + 1
+                        ren = {v: "%s_q%d" % (v, self._proc_count) for v in stored}
+                        mapping = dict(zip(params[1:], c.args))
+                        mapping[params[0]] = ast.Name(id="self", ctx=ast.Load())
+
+                        class _R(ast.NodeTransformer):
+                            def visit_Name(self_, n):
+                                if n.id in ren:
+                                    return ast.copy_location(ast.Name(id=ren[n.id], ctx=n.ctx), n)
+                                if n.id in mapping and isinstance(n.ctx, ast.Load):
+                                    return ast.copy_location(copy.deepcopy(mapping[n.id]), n)
+                                return n
+
+                        out = []
+                        for st in body:
+                            st2 = self.visit(_R().visit(copy.deepcopy(st)))
+                            out += st2 if isinstance(st2, list) else [st2]
+                        self.count += 1
+                        return [ast.fix_missing_locations(ast.copy_location(x, node)) for x in out]
+        return node
 
     def visit_For(self, node):
         self.generic_visit(node)
@@ -2473,6 +2530,7 @@ def normalise(tree):
     tree = _MapExtend(tree).visit(tree)
     u = Unroller(tree)
     tree = u.visit(tree)
+    _attrgetters(tree)  # functions of the operator module that came to stand at their call by unrolling
     tree = _FoldAttr().visit(tree)
     tree = _SubElement().visit(tree)
     tree = _HoistElement().visit(tree)
